@@ -157,7 +157,8 @@ theorem finish_step23 (msn : MMems) (sdn sd1 : Option (List String)) (decoys : O
       (MJ.obj msF sd1).allMarks = (MJ.obj msn sd1).allMarks ∧
       (MJ.obj msF sd1).deepStale = (MJ.obj msn sd1).deepStale ∧
       aget "_sd_alg" (msF.hview (fun _ => false)) = some (.str "sha-256") ∧
-      (∀ S : String → Bool, adel "_sd_alg" (msF.project S) = cnfIns cnf S (msn.project S)) := by
+      (∀ S : String → Bool, adel "_sd_alg" (msF.project S) = cnfIns cnf S (msn.project S)) ∧
+      msF.paths "" = msn.paths "" := by
   let alg : MJ := .leaf (.str "sha-256")
   have halgwf : alg.WF := by simp [alg, MJ.WF, J.scalar]
   obtain ⟨inv2, hdiscs2, hmarks2, hst2, _⟩ :=
@@ -174,7 +175,8 @@ theorem finish_step23 (msn : MMems) (sdn sd1 : Option (List String)) (decoys : O
     fun S => adel_ains _ (aget_project_none S "_sd_alg" msn hk1n)
   cases cnf with
   | none =>
-    refine ⟨msn.insClear "_sd_alg" alg, ?_, inv2, hdiscs2, hmarks2, hst2, ?_, ?_⟩
+    refine ⟨msn.insClear "_sd_alg" alg, ?_, inv2, hdiscs2, hmarks2, hst2, ?_, ?_,
+      paths_insClear "_sd_alg" alg "" rfl msn⟩
     · simp only [finish, hT1, if_true, MJ.insTop, cnfTop]; rfl
     · exact aget_hview_clear _ "_sd_alg" alg msn wfn hk1n
     · intro S
@@ -185,7 +187,8 @@ theorem finish_step23 (msn : MMems) (sdn sd1 : Option (List String)) (decoys : O
     obtain ⟨inv3, hdiscs3, hmarks3, hst3, _⟩ :=
       insTop_inv (msn.insClear "_sd_alg" alg) sd1 "cnf" X inv2 hk3 (by decide) (by decide) hXwf hXd
     refine ⟨(msn.insClear "_sd_alg" alg).insClear "cnf" X, ?_, inv3,
-      hdiscs3.trans hdiscs2, hmarks3.trans hmarks2, hst3.trans hst2, ?_, ?_⟩
+      hdiscs3.trans hdiscs2, hmarks3.trans hmarks2, hst3.trans hst2, ?_, ?_,
+      (paths_insClear "cnf" X "" (no_digests X hXwf hXd).1 _).trans (paths_insClear "_sd_alg" alg "" rfl msn)⟩
     · simp only [finish, hT1, if_true, MJ.insTop, cnfTop]; rfl
     · rw [hview_insClear _ "cnf" X _ wf2 hk3, aget_ains_ne _ (by decide)]
       exact aget_hview_clear _ "_sd_alg" alg msn wfn hk1n
@@ -213,7 +216,9 @@ theorem holder_verify_issued (rt : Rt) (mk : Nat → Option String → J → Str
     (hnd : (strs.map (rt.hash "sha-256")).Nodup)
     (hall : ∀ e ∈ ds, ∃ s ∈ strs, rt.hash "sha-256" s = e.digest)
     (hj : '~' ∉ jwt.toList) (hs : ∀ s ∈ strs, '~' ∉ s.toList) :
-    ∃ ps, Holder.verify rt (assemble jwt strs) = .ok (header, expectedClaims ms cnf, ps) := by
+    ∃ ps, Holder.verify rt (assemble jwt strs) = .ok (header, expectedClaims ms cnf, ps) ∧
+      (ps.map (fun e => (e.1, e.2.digest))).Perm (Tn.paths "") ∧
+      (∀ e ∈ ps, ∃ s ∈ strs, fromBase64 (rt.env "sha-256") s = .ok e.2) := by
   -- the start tree
   obtain ⟨hm0, _, hst0⟩ := no_digests _ wf hplain
   have inv : TreeInv (.obj ms none) := ⟨wf, by rw [hplain]; exact List.nodup_nil, by rw [hm0]; exact List.nodup_nil⟩
@@ -233,7 +238,7 @@ theorem holder_verify_issued (rt : Rt) (mk : Nat → Option String → J → Str
   have wfn := invn.wf
   simp only [MJ.WF] at wfn
   obtain ⟨sd1, hT1, inv1, hst1⟩ := finish_step1 msn sdn decoys invn hdec
-  obtain ⟨msF, hF, invF, hdiscsF, hmarksF, hstF, halgF, hprojF⟩ :=
+  obtain ⟨msF, hF, invF, hdiscsF, hmarksF, hstF, halgF, hprojF, hpathsF⟩ :=
     finish_step23 msn sdn sd1 decoys cnf wfn.1 inv1 hT1 hk1n hk2n hX
   have hdiscs1 : (MJ.obj msn sd1).discs = (MJ.obj msn sdn).discs := rfl
   rw [hF] at hjwt
@@ -256,8 +261,24 @@ theorem holder_verify_issued (rt : Rt) (mk : Nat → Option String → J → Str
           rw [← MJ.discs_digest]; exact List.mem_map_of_mem hein
         have := MJ.allMarks_sub_digests _ invn.wf _ hmem
         exact (hdec l hdc).2 _ (by simpa [hdc] using h1) this
-  obtain ⟨c, ps, hr, hc⟩ := restore_own (rt.env "sha-256") (.obj msF sd1) invF strs hstrF hnd
-  refine ⟨ps, ?_⟩
+  obtain ⟨c, ps, L, hr, hc, hLfrom, hLto, hpok⟩ :=
+    restore_own_paths (rt.env "sha-256") (.obj msF sd1) invF strs hstrF hnd
+  refine ⟨ps, ?_, ?_, ?_⟩
+  rotate_left
+  · -- every marked node has its disclosure among the decoded ones
+    have hallL : ∀ g ∈ (MJ.obj msF sd1).allMarks, ∃ d ∈ L, d.digest = g := by
+      intro g hg
+      rw [hmarksF] at hg
+      have hg' : g ∈ (MJ.obj msn sdn).allMarks := hg
+      have : g ∈ ds.map (·.digest) := by simpa [hm0] using pm.subset hg'
+      obtain ⟨e, he, rfl⟩ := List.mem_map.mp this
+      obtain ⟨s, hs', hh⟩ := hall e he
+      obtain ⟨d, hd, hf⟩ := hLto s hs'
+      exact ⟨d, hd, by rw [fromBase64_digest _ s d hf]; exact hh⟩
+    have := hpok.all hallL
+    simpa [MJ.paths, hpathsF] using this
+  · intro e he
+    exact hLfrom e.2 (hpok.sound e he).2
   -- run the holder
   have halgJ : (jidx (MJ.obj msF sd1).payload "_sd_alg").asStr = some "sha-256" := by
     simp only [MJ.payload, MJ.hview, jidx, aget_withSd_ne sd1 "_sd_alg" _ (by decide)]
